@@ -3,9 +3,9 @@
 import json, subprocess, sys
 
 ENGINE_NOTE = ("Trusted base: the hand-rolled engine /verif/rt (validated by litmus, interleaving-count and replay self tests), "
-               "memory model M1 of DESIGN §5 (an under-approximation of C11 for relaxed/acquire/release, SeqCst accesses as full barriers, "
-               "A-cumulative releases), the cfg(arc_swap_verif) hooks, the instrumented RefCnt pointer VArc, and the stated bounds "
-               "(threads, calls, preemptions, stale reads, spurious CAS failures; 2 fast slots per node in the quick tier, 2 and the shipped 8 in the thorough tier).")
+               "memory model M2 of DESIGN §5 (promise-free view semantics, an under-approximation of C11 for relaxed/acquire/release; a SeqCst access = leading SeqCst fence + acquire/release access; "
+               "both engine models give SeqCst accesses fence strength, see DESIGN §5 'Limit'), the cfg(arc_swap_verif) hooks, the instrumented RefCnt pointer VArc, and the stated bounds "
+               "(threads, calls, preemptions, stale reads, spurious CAS failures, free atomic-call placements; 2 fast slots per node in the quick tier, 2 and the shipped 8 in the thorough tier).")
 
 CLAIMED = {
  "C01": dict(text="Bounded exhaustive exploration of the real crate: every schedule with at most P preemptions, every read-from choice with at most S stale reads and every spurious weak-CAS failure up to F, of 2-4 thread harnesses on the fast, full (all fast slots occupied) and fallback-only paths, with fresh and reused addresses. Oracle: instrumented pointees that are never really freed, so any touch after logical destruction, and any wild pointer, is reported on the execution where it happens.",
@@ -33,7 +33,7 @@ CLAIMED = {
              technique="stateless model checking of the implementation with engine-managed thread-local storage and thread exit as explored events", ref="§7 C11"),
  "C12": dict(text="A reader of container A (on every path) against writers of container B sharing the same per-thread node, optionally a writer of A, optionally one value stored in both; a variant where B has a different pointee type so that a mis-directed help or payment is a type-tag violation. Oracles: per-container linearizability, provenance of every loaded identity, exact counts.",
              technique="stateless model checking of the implementation + per-container history and provenance oracles", ref="§7 C12"),
- "C13": dict(text="Panic oracle on every engine harness (debug assertions on), plus the generation wrap-around family: the helping generation counter is preset 1 and 2 transactions before its wrap (through a hook), then fallback loads run against a helping writer, including the case where the wrap happens in the nested load a writer performs while helping. The unchanged tree violated this (fixed by /repo commit bdc6940, see known_findings.json).",
+ "C13": dict(text="Panic oracle on every engine harness (debug assertions on; a panic is recorded inside the panic hook and the execution abandoned before unwinding), plus the generation wrap-around family: the helping generation counter is preset 1 and 2 transactions before its wrap (through a hook), then fallback loads run against a helping writer, the wrap inside the nested load of a helping writer, a thread starting inside that race, a fresh thread claiming the discarded node at once; after a wrap every other oracle failure also counts. The unchanged tree violated this (fixed by /repo commits bdc6940 and fd73936, see known_findings.json).",
              technique="stateless model checking of the implementation with the transaction counter preset near its maximum; panic / abort oracle", ref="§7 C13, §8.1"),
 
  "C14": dict(text="Explicit-state search over the public API: a plain-variable reference model defines the abstract state (per container the stored identity, multisets of live guards and owned handles, within caps); breadth-first search to closure of the capped state space; every transition's path is replayed on fresh real objects under DefaultStrategy, FillFastSlots and RwLock<()> and compared (returned identities, what every container and guard denotes, exact count equation strong + debt slots == owners, everything released at the end). Plus hand-shaped programs with S, S+1, S+2 guards around every kind of write in three release orders.",
